@@ -54,6 +54,10 @@ type Program struct {
 	Callers  map[*ssa.Function][]ssa.CallInstruction
 	FieldSt  map[FieldKey][]*ssa.Store // stores through FieldAddr, whole repository
 	GlobalSt map[*ssa.Global][]*ssa.Store
+	// rename-robust anchors (anchors.go)
+	Renamed        map[string]*ssa.Function
+	RenamedGlobals map[string]*ssa.Global
+	AliasNotes     []string
 }
 
 // Load loads ./... of cfg.Dir. Any load or type error is fatal: a check must
@@ -109,6 +113,7 @@ func Load(cfg Config) (*Program, error) {
 	}
 	prog.Build()
 	p.index()
+	p.resolveAliases()
 	return p, nil
 }
 
@@ -220,7 +225,10 @@ func (p *Program) Func(pkg, name string) *ssa.Function {
 	if sp == nil {
 		return nil
 	}
-	return sp.Func(name)
+	if f := sp.Func(name); f != nil {
+		return f
+	}
+	return p.Renamed[pkg+"."+name]
 }
 
 // Method returns the method (T or *T).name of named type pkg.typ.
@@ -267,9 +275,23 @@ func FuncName(fn *ssa.Function) string {
 	if fn == nil {
 		return "<nil>"
 	}
-	s := fn.String()
-	s = strings.ReplaceAll(s, RepoModule+"/", "")
-	return s
+	if a, ok := funcAlias.Load(fn); ok {
+		return a.(string)
+	}
+	if par := fn.Parent(); par != nil {
+		// function literal of a structurally resolved function: parent$N
+		if _, ok := funcAlias.Load(outermost(par)); ok {
+			return FuncName(par) + strings.TrimPrefix(rawFuncName(fn), rawFuncName(par))
+		}
+	}
+	return rawFuncName(fn)
+}
+
+func outermost(fn *ssa.Function) *ssa.Function {
+	for fn.Parent() != nil {
+		fn = fn.Parent()
+	}
+	return fn
 }
 
 // TypeString with repository module prefix elided.
